@@ -325,6 +325,16 @@ fn eq<const D: usize>(da: &[u8], db: &[u8], differ_at: Option<u16>) -> CaseResul
         a, b, if differ_at.is_none() { "identical" } else { "different" }, x == y, want
     );
     vensure!((y == x) == want, "eq-asymmetric", "== is not symmetric for dims {:?} / {:?}", a, b);
+    // Clone::clone_from must produce the source tensor (shape included), whatever the destination held
+    let mut z = x.clone();
+    z.clone_from(&y);
+    vensure!(z == y && z.dims() == y.dims(), "clone_from", "after a.clone_from(&b) with dims {:?} <- {:?}: a has dims {:?} and a == b is {}", a, b, z.dims(), z == y);
+    let last: Vec<usize> = b.iter().map(|d| d - 1).collect();
+    let mut li = [0usize; D];
+    li.copy_from_slice(&last);
+    vensure!(catch(|| z[li]).ok() == y.iter().last().cloned(), "clone_from", "after clone_from the last valid index of the source shape {:?} does not address its last element", b);
+    let c2 = y.clone();
+    vensure!(c2 == y && c2.dims() == y.dims(), "clone", "clone() differs from the original for dims {:?}", b);
     let mut st = CaseStats::default();
     st.nontrivial = a != b;
     if a != b {
